@@ -156,6 +156,8 @@ public:
   /////////////////////////// MIP CONSTRAINT MAPS ///////////////////////
 public:
   USE_BASE_MAP_FINDERS( BaseConverter )
+  using BaseConverter::MapErase;
+  using BaseConverter::DefersConversion;
 
   /// Specialize MapFind for CondLinConEQ.
   /// We distinguish the case var==const
@@ -172,6 +174,24 @@ public:
     if (isVCC.first)                    // only var==const comparisons
       return MapInsert__VarConstCmp(isVCC.second.first, isVCC.second.second, i);
     return MPD( MapInsert__Impl(eq0c, i) );
+  }
+
+  /// Specialize MapErase for CondLinConEQ
+  void MapErase(const CondLinConEQ& eq0c) {
+    const auto isVCC = IsVarConstCmp( eq0c );
+    if (isVCC.first) {                  // only var==const comparisons
+      auto itVar = map_vars_eq_const_.find(isVCC.second.first);
+      if (map_vars_eq_const_.end() != itVar)
+        itVar->second.erase(isVCC.second.second);
+    } else
+      MPD( MapErase__Impl(eq0c) );
+  }
+
+  /// var==const comparisons are reformulated in ConvertMaps()
+  bool DefersConversion(const CondLinConEQ& eq0c) {
+    const auto isVCC = IsVarConstCmp( eq0c );
+    return isVCC.first
+        && IfMightUseEqualityEncodingForVar(isVCC.second.first);
   }
 
   /// Convert MIP-specific maps
